@@ -304,8 +304,10 @@ theorem launched_setStopPoint (s : State) (p : Int) : (setStopPoint s p).launche
 
 theorem launched_queueOrTrigger (s : State) (x : Proxy) : (queueOrTrigger s x).launched = s.launched := by
   unfold queueOrTrigger
-  simp only
-  split <;> rfl
+  split
+  · rfl
+  · simp only
+    split <;> rfl
 
 
 theorem launched_trigger (g : Graph) (s : State) (p : Int) (n : String) : (trigger g s p n).launched = s.launched := by
